@@ -66,7 +66,7 @@ TOutFail     == IsEvent("out_done") /\ ~Ev.okay /\ OutWriteFail /\ Ev.path = Art
 
 TSilent ==
   /\ Quiet
-  /\ \/ NextFile \/ StaticTyErr \/ StaticEnd \/ (\E k \in pend \ found : Link(k)) \/ LinkDone
+  /\ \/ NextFile \/ StaticTyErr \/ StaticEnd \/ Link \/ LinkSkip \/ LinkDone
      \/ StmtStep \/ StmtErr \/ RunDone \/ EndFile \/ Exit
 
 TReset ==      \* the next recorded execution: a fresh process
@@ -74,7 +74,7 @@ TReset ==      \* the next recorded execution: a fresh process
   /\ l' = l + 1 /\ sil' = sil
   /\ proj' = ProjOf(Ev) /\ disk' = SeqToSet(Ev.disk) /\ diskPre' = SeqToSet(Ev.disk)
   /\ round' = 1 /\ past' = << >> /\ fired' = {} /\ trlog' = << >>
-  /\ argi' = 0 /\ cur' = 0 /\ st' = "pick" /\ fetch' = NoFetch /\ chk' = << >> /\ pend' = {} /\ found' = {}
+  /\ argi' = 0 /\ cur' = 0 /\ st' = "pick" /\ fetch' = NoFetch /\ chk' = << >> /\ pend' = << >> /\ found' = {}
   /\ frames' = << >> /\ perr' = ""
   /\ opCache' = {} /\ valCache' = {} /\ shapeCache' = {} /\ outLock' = {} /\ asserts' = FreshAsserts
   /\ verdicts' = << >> /\ exit' = -1
